@@ -83,7 +83,9 @@ MIN_EVALS = {
 ASSUMPTIONS = [
     'the wavefront samples (W in waves, intensity) come from a separately constructed optiland Wavefront with the same '
     'sampling (C09 checks W itself); pupils cut off by a physical aperture (dark samples, intensity 0) are decided in the PSF family when at least 8 % '
-    'of the samples are lit; the MTF and geometric families use lenses without physical apertures',
+    'of the samples are lit, and so are pupils some of whose rays do not reach the image (non-finite samples = dark samples); the MTF '
+    'and geometric families use lenses without physical apertures (dark samples there come from lost rays only; the circular closed '
+    'form is then not a bound, the diffraction limit of the lit aperture is)',
     'the statement does not define the pupil amplitude in terms of ray intensity: amplitude = sqrt(intensity) (physical) '
     'and amplitude = intensity/mean (the library\'s documented `.pupils`) are both accepted when the intensity is not '
     'uniform over the pupil (absorbing catalogue glasses); the evidence classes amplitude-law-* record which one fitted',
@@ -426,7 +428,13 @@ def sample_pupil(lens, hy, wl, N, rec):
     wf = Wavefront(lens, fields=[(0.0, hy)], wavelengths=[wl], num_rays=N, distribution='uniform')
     W = np.array(wf.data[0][0][0], dtype=float).ravel()
     I = np.array(wf.data[0][0][1], dtype=float).ravel()
-    if not np.all(np.isfinite(I)) or I.size == 0 or np.any(I < 0):
+    lost = ~np.isfinite(I) | ~np.isfinite(W)
+    if lost.any():
+        # rays that do not reach the image (no intersection / total reflection on the way) carry no light: those pupil
+        # samples are dark, like samples cut off by an aperture
+        rec.cls('pupil-with-lost-rays')
+        I, W = np.where(lost, 0.0, I), np.where(lost, 0.0, W)
+    if I.size == 0 or np.any(I < 0):
         rec.cls('pupil-non-finite-skipped')
         return None
     lit = I > 0
@@ -446,7 +454,7 @@ def sample_pupil(lens, hy, wl, N, rec):
     pv = float(W[lit].max() - W[lit].min())
     rec.cls('aberration-pv-' + ('<0.01' if pv < 0.01 else '0.01-1' if pv < 1 else '1-10' if pv < 10 else
                                 '10-40' if pv <= 40 else '>40'))
-    pup = dict(P=P, A=A, W=W, pv=pv, nin=int(mask.sum()), law='sqrt-intensity', uniform=uniform)
+    pup = dict(P=P, A=A, W=W, pv=pv, nin=int(mask.sum()), law='sqrt-intensity', uniform=uniform, dark=bool(not lit.all()))
     laws = [pup]
     if not uniform:
         P2, A2, _ = D.pupil_from_samples(W, (I / I.mean()) ** 2, N)
@@ -650,7 +658,11 @@ def check_mtf(ctx, rec, wl, hys):
             dl_exact = D.mtf_linear(pup['A'].astype(complex), len(y), axis)
             dl_closed = D.diffraction_limit(kk / (N - 1.0))
             sc = maxabs(dl_exact - dl_closed)
-            if sc > 2.0 / N:       # (sampling error of a disk on an N-grid: observed up to 1.13/N over the thorough tier)
+            if pup.get('dark'):
+                # part of the pupil is dark (lost rays): its diffraction limit is that of the lit aperture, not the circle's
+                rec.cls('mtf-pupil-with-dark-samples')
+                dl_closed = None
+            elif sc > 2.0 / N:       # (sampling error of a disk on an N-grid: observed up to 1.13/N over the thorough tier)
                 raise D.OracleSelfCheck(f'discrete diffraction limit is {sc * N:.2f}/N from the closed form')
             generic_curve_clauses(rec, y, f'FFTMTF {name} Hy={hy} N={N} grid={g}', dl_exact, dl_closed, 2.0 / N,
                                   fl_start, fl_dl, model_ok)
@@ -661,7 +673,7 @@ def check_mtf(ctx, rec, wl, hys):
                 judge(rec, 'mtf-perfect-pupil-formula', r <= 2.0 / N, fl, model_ok and axis_ok_model, resid=r, tol=2.0 / N,
                       msg=f'perfect system, {name} curve against (2/pi)(phi - cos phi sin phi) on the frequencies reported by '
                           f'view() (nu_c = {nu_c:.6g}): max deviation {r:.4f} > 2/N = {2.0 / N:.4f} (N={N}, grid={g}); on the '
-                          f'true axis k nu_c/(N-1) the deviation is {maxabs(y - dl_closed):.4f}')
+                          f'true axis k nu_c/(N-1) the deviation is {maxabs(y - D.diffraction_limit(kk / (N - 1.0))):.4f}')
         rec.event('mtf_points_compared', len(tan) + len(sag))
         rec.sample(dict(case=dict(kind=ctx.case['kind'], family='mtf', N=N, grid=g, hy=hy, wl=wl),
                         library=dict(max_freq=mf, axis_spacing=(float(x_lib[1]) if x_lib is not None and len(x_lib) > 1 else None),
